@@ -100,17 +100,17 @@ CLAIMED = {
     ),
     "C04": (
         "other",
-        "Deductive: _PrecalculatedDateTimeZone.get_zone_interval (binary search) over a period list of SYMBOLIC length with an inductive loop invariant and variant: for any number of periods satisfying the class invariant it returns the one period containing the instant and never reports 'instant did not exist'; _validate_periods establishes exactly that class invariant for ANY list (for-loop invariant over an arbitrary ghost index) and __compute_offset bounds the wall offset of EVERY period; the yearly rule _get_occurrence_for_year equals plain calendar arithmetic for every stored rule x every year 1..9999 (479,952 ground obligations on the identity-checked function; for every conceivable rule symbolically in the thorough tier). BOUNDED STAND-IN for the rest (recurrence stepping, alternating map, hand-off to the tail, caching wrapper, fixed zones): every zone id of both real files walked through the public API (quick: first 260 intervals per zone + the last ~40; thorough: complete, the configuration is finite).",
-        "Trusted: A1-A4, CAL axioms; the period list is abstracted by uninterpreted functions of the index whose class invariant is instantiated at the index terms of each obligation. _ZoneRecurrence, _StandardDaylightAlternatingMap, the tail hand-off and the caching map are covered by the walk only.",
-        "contract-based deductive verification with loop invariants over a symbolic-length sequence; ground case split over the stored rules; bounded run-time contract checking for the rest",
+        "Deductive (all inputs): _PrecalculatedDateTimeZone.get_zone_interval -- binary search over a period list of SYMBOLIC length with inductive loop invariant and variant (for any number of periods satisfying the class invariant: returns the one period containing the instant, never 'instant did not exist'), and the hand-off to the tail map with the clamped first tail interval; _validate_periods establishes exactly that class invariant for ANY list (for-loop invariant over an arbitrary ghost index); __compute_offset bounds the wall offset of EVERY period; _ZoneRecurrence._next / _previous_or_same return the occurrence of the least / greatest year of the recurrence on the right side of the instant (modular over the rule contract OCC + YEAR-LOCAL, arbitrary ghost year, recurrence years within -9000..9000 or unbounded); _StandardDaylightAlternatingMap.get_zone_interval over the recurrence contracts (contains the instant, ends at the earlier next transition, belongs to the other recurrence, wall = standard + savings); the yearly rule equals plain calendar arithmetic for every stored rule x every year 1..9999 (479,952 ground obligations; every conceivable rule symbolically in the thorough tier). BOUNDED STAND-IN for the composition (that the real zones' rule pairs alternate, the caching wrapper, fixed zones, and the end-to-end statement 'intervals abut and are maximal'): every zone id of both real files walked through the public API (quick: first 260 intervals per zone + the last ~40; thorough: complete, the configuration is finite).",
+        "Trusted: A1-A4, CAL axioms; interface facts of the modular steps: YEAR-LOCAL for rules (a rule's occurrence of year y lies in year y: discharged as ground obligations for every stored rule x year) and the assumption PARTITION for the tail map (the interval of any instant inside an interval is that interval); the period list is abstracted by uninterpreted functions of the index whose class invariant is instantiated at the index terms of each obligation. The caching map and 'adjacent intervals differ' are covered by the walk only.",
+        "contract-based deductive verification with loop invariants over a symbolic-length sequence and modular interface contracts; ground case split over the stored rules; bounded run-time contract checking for the composition",
         "DESIGN.md §4 C04, §10",
     ),
     "C05": (
         "other",
-        "Instant._safe_plus/_safe_minus/_LocalInstant arithmetic (the local bounds of an interval) are under deductive contract (shared with C03). The mapping algorithm itself is covered by a BOUNDED STAND-IN: for every zone of both real files, local date-times at -100 s, -1 ns, 0, +1 ns, +100 s around transitions are mapped and compared with brute force over candidate offsets; strict/lenient resolvers checked against their promises.",
-        "The mapping algorithm depends on the zone's interval map (a higher-order dependency) and is not yet under a modular contract; counted as bounded, not proved.",
-        "deductive contracts for the interval-bound arithmetic; bounded run-time contract checking of map_local over the real configuration",
-        "DESIGN.md §4 C05",
+        "Deductive (all mappings, any calendar): ZoneLocalMapping.first/last/single and the stock strict and lenient resolvers do what they promise (strict raises the skipped/ambiguous error; lenient returns the earlier instant for an ambiguity and the local time shifted forward by the gap length, at the offset after the gap, for a skipped time; result values keep the local date-time, the interval's wall offset and the zone); Instant._safe_plus / _LocalInstant._safe_minus (local bounds of an interval) under C03's contracts. The mapping algorithm itself (map_local and its neighbour probes, at_start_of_day) is covered by a BOUNDED STAND-IN: for every zone of both real files, local date-times at -100 s, -1 ns, 0, +1 ns, +100 s around transitions (every transition in the thorough tier, every 7th in quick) are mapped and compared with brute force over the candidate offsets; start of day is compared with the earliest instant carrying that date.",
+        "Trusted: A1-A4, CAL axioms. map_local depends on the zone's interval map (a higher-order dependency on data: its day-granular pre-checks are only right for zones whose intervals are longer than the offsets involved) and is not under a modular contract; counted as bounded, not proved.",
+        "contract-based deductive verification of result selection and resolvers; bounded run-time contract checking of map_local over the real configuration",
+        "DESIGN.md §4 C05, §10",
     ),
     "C06": (
         "other",
